@@ -858,6 +858,38 @@ class Engine:
                             v = dx
                             branches = [(('==', kx[1]), eq_tgt), (('!=', (kx[1],)), ne_tgt)]
                             break
+                # a `match a.cmp(&b)` on integers: each arm is the comparison it stands for (Less = -1, Equal = 0, Greater = 1)
+                if v[0] == 't' and v[1] == 'discr' and v[2][0][0] == 't' and v[2][0][1] == 'int_cmp':
+                    a_, b_ = v[2][0][2]
+                    norm = lambda x_: -1 if x_ in (255, 65535, 4294967295, 18446744073709551615, -1) else x_
+                    nb = []
+                    left = {-1, 0, 1}
+                    ok_ = True
+                    for (op_, val_), tgt_ in branches:
+                        if op_ == '==':
+                            k_ = norm(val_)
+                            left.discard(k_)
+                            rel = {-1: 'Lt', 0: 'Eq', 1: 'Gt'}.get(k_)
+                        else:
+                            rest = left
+                            if not rest:
+                                continue          # (every ordering has its own arm: the `otherwise` edge is unreachable)
+                            rel = {frozenset({0, 1}): 'Ge', frozenset({-1, 0}): 'Le', frozenset({-1, 1}): 'Ne', frozenset({-1}): 'Lt',
+                                   frozenset({0}): 'Eq', frozenset({1}): 'Gt'}.get(frozenset(rest))
+                        if rel is None:
+                            ok_ = False
+                            break
+                        nb.append((T(rel, a_, b_), tgt_))
+                    if ok_:
+                        live = []
+                        for term_, tgt_ in nb:
+                            s2 = st.copy()
+                            if self.add_cond(s2, term_, '==', 1, site):
+                                live.append((s2, tgt_))
+                        for s2, tgt_ in live:
+                            if self.goto(s2, s2.frames[-1], bb, tgt_, results):
+                                work.append(s2)
+                        return
                 if self.assume_asserts:
                     # `assert!(c)` / `debug_assert!(c)`: the branch that fails the assertion is not a behaviour of the
                     # function the tables describe (whether it can fire is audited where panics matter, C14.M3); the path
